@@ -163,7 +163,7 @@ pub fn run(ctx: &Ctx) -> i32 {
             let ast = match rng.below(10) {
                 0..=4 => matrix_rule(&mut rng),
                 5 => chain_rule(&mut rng),
-                7 if n % 3 == 0 => indexed_rule(&mut rng),
+                7 => indexed_rule(&mut rng),
                 6 if n % 40 == 7 => gen::wide_matrix_rule(&mut rng),
                 _ => gen::gen_rule(&mut rng, &cfg),
             };
@@ -196,7 +196,18 @@ pub fn run(ctx: &Ctx) -> i32 {
                     .collect();
                 for name in &inner_names {
                     if rng.chance(60) && !top.iter().any(|t| t == name || t.starts_with(&format!("{}.", name)) || t.starts_with(&format!("{}[", name))) {
-                        let v = DVal::Arr(vec![DVal::s("foo"), gen::junk_scalar(&mut rng), DVal::s("bar")]);
+                        // filled with values made for the predicate that reads the inner
+                        // segment of that name: a read fabricated from the wrong place then
+                        // tends to flip the verdict
+                        let leaf = leaves.iter().find(|l| l.field.split('.').skip(1).chain(l.containers.iter().skip(1).map(|c| c.as_str())).any(|seg| seg.split('[').next() == Some(name.as_str())) || (!l.containers.is_empty() && l.field.split('[').next() == Some(name.as_str())));
+                        let v = match leaf {
+                            Some(l) if rng.chance(70) => {
+                                let x = gen::value_for(&mut rng, l);
+                                let y = gen::value_for(&mut rng, l);
+                                DVal::Arr(vec![x.clone(), y, x])
+                            }
+                            _ => DVal::Arr(vec![DVal::s("foo"), gen::junk_scalar(&mut rng), DVal::s("bar")]),
+                        };
                         with_junk.set(name, v);
                         altered.set(name, DVal::Arr(vec![DVal::s("x1"), DVal::s("x1"), DVal::s("x1")]));
                     }
